@@ -51,6 +51,22 @@ def legacy_upload(size, fault_at, phase):
     return None
 
 
+def legacy_upload_sched(size, fault_at, phase, c0, c1):
+    """C05.3s: as C05.3 through S3Transfer.upload_file with the pool's part uploads run in an order decided by
+    symbolic choices (lazy pool model)"""
+    from harness import legacy as L
+    c = L.upload(size, 5 * H.MiB, 5 * H.MiB, fault_at, phase, choices=(c0, c1))
+    if c.outcome[0] == 'stuck':
+        return '~'
+    ok = c.outcome[0] == 'ok'
+    if c.env.delivered is not None and ok:
+        return 'c05: legacy upload reports success although a request failed'
+    r = c.s3.check_multipart_lifecycle(ok)
+    if r:
+        return 'c05: legacy ' + r[4:]
+    return None
+
+
 class _SerialPool:
     """stand-in for concurrent.futures.ThreadPoolExecutor used by the legacy classes: runs inline"""
 
@@ -82,6 +98,13 @@ OBLIGATIONS = FT.fault_obligations('c05', 'C05', which=['up-path', 'up-seek', 'u
          bounds='legacy MultipartUploader, 2 parts, serial pool, one fault at a symbolic S3 call index / phase',
          encodes=['s3transfer.MultipartUploader.upload_file', '_upload_parts', '_upload_one_part'],
          assumptions=['S1', 'S2', 'serial executor_cls']),
+    dict(id='C05.3s', impl='legacy_upload_sched', params='size: int, fault_at: int, phase: int, c0: int, c1: int',
+         pre=['5 * 1024 ** 2 < size <= 10 * 1024 ** 2', '-1 <= fault_at <= 8', '0 <= phase <= 1',
+              '0 <= c0 <= 1 and 0 <= c1 <= 1'], splits=[['c0 == 0'], ['c0 == 1']], timeout=(120, 600),
+         bounds='legacy S3Transfer.upload_file, 2 parts, one fault at a symbolic environment call / phase, the part '
+                'uploads run in either order (lazy pool model)',
+         encodes=['s3transfer.S3Transfer.upload_file', 'MultipartUploader.upload_file', '_upload_parts'],
+         assumptions=['S1', 'S2', 'lazy pool model: tasks run to completion in any order']),
 ]
 
 from harness.corace import OB_DEPS, task_dependencies  # noqa: E402
